@@ -190,4 +190,6 @@ RECIPES = [
     ("C06", "break", ["C06-R2"], CB, "    C = np.ones(lt)\n", "    C = np.full(lt, 0.0)\n", "cbconvert: displacement diagonal starts as zeros - boundary rotations wiped"),
     ("C06", "break", ["C06-R5"], CB, "    c_chk = cbcoordchk(\n        k,\n        bset,\n        bref,\n", "    c_chk = cbcoordchk(\n        k,\n        bset,\n        bset[:6],\n",
      "cbcheck: stiffness-based modes referenced to the first boundary grid instead of bref"),
+    ("C06", "break", ["C06-R7"], CB, "        i = np.argsort(np.argsort(bseto))\n", "        i = np.argsort(bseto)\n", "cbcheck: USET rows gathered with the inverse permutation (finding F17 re-introduced)"),
+    ("C06", "neutral", [], CB, "        i = np.argsort(np.argsort(bseto))\n", "        i = np.searchsorted(np.sort(bseto), bseto)\n", "cbcheck: rank of each b-set DOF through searchsorted"),
 ]
